@@ -2,6 +2,7 @@ import PycsepVerif.Proto
 import PycsepVerif.Model.DecimalText
 import PycsepVerif.Model.ForecastText
 import PycsepVerif.Model.CatalogText
+import PycsepVerif.Model.CatalogStream
 import PycsepVerif.Drive.C11
 import PycsepVerif.Drive.C12
 /-!
@@ -20,6 +21,11 @@ Driver ops of the text layers of C11 / C12 (owner: C11/C12).  Strings travel as 
 `c12_csv H`        csv fields of one line → hex fields joined by `,` | `none`
 `c12_time H`       the time field → epoch ms | `none`
 `c12_fname H`      parse_filename → `hexname,us` | `none`
+`c12_stream H`     the generator consumed lazily, quoted fields may span lines (`streamTextML`) → `<cats>#end` |
+                   `<cats>#err:decreasing|malformed` with `<cats>` as after `ok:` of `c12_text` (`-` = none yielded)
+`c12_csvml H`      csv records of a whole text (`csvRecordsML`) → records joined by `;`, fields hex joined by `,`, `empty`
+`c12_ses TYPEH FORMATH`              option handling of `load_stochastic_event_sets` → outcome name
+`c12_cf EXISTS LOADER(none|callable|notcallable) FORMATH TYPEH`   … of `load_catalog_forecast`
 -/
 namespace Drive.Text
 open Proto DecimalText
@@ -71,7 +77,35 @@ def showResultH : Except AsciiCatalogs.Err (List AsciiCatalogs.Catalog) → Stri
   | .error .decreasing => "err:decreasing"
   | .error .malformed => "err:malformed"
 
+def showCatsH (cs : List AsciiCatalogs.Catalog) : String :=
+  if cs.isEmpty then "-" else ";".intercalate (cs.map (fun c =>
+      Drive.C12.showO toString c.id ++ "|" ++ ",".intercalate (c.events.map showEvH)))
+
 def handle : List String → Option String
+  | ["c12_stream", h] => some (match unhex h with
+      | some t => (match AsciiCatalogs.streamTextML t with
+        | (cs, none) => showCatsH cs ++ "#end"
+        | (cs, some .decreasing) => showCatsH cs ++ "#err:decreasing"
+        | (cs, some .malformed) => showCatsH cs ++ "#err:malformed")
+      | none => "bad-op")
+  | ["c12_csvml", h] => some (match unhex h with
+      | some t =>
+        let recs := AsciiCatalogs.csvRecordsML t
+        if recs.isEmpty then "norecords" else ";".intercalate (recs.map (fun fs =>
+          if fs.isEmpty then "empty" else ",".intercalate (fs.map hex)))
+      | none => "bad-op")
+  | ["c12_ses", ty, fm] => some (match unhex ty, unhex fm with
+      | some ty, some fm => (match AsciiCatalogs.sesDispatch ty fm with
+        | .valueErrorType => "ValueError-type" | .ucerf3 => "ucerf3" | .csvNative => "csv-native"
+        | .csvCsep => "csv-csep" | .valueErrorFormat => "ValueError-format")
+      | _, _ => "bad-op")
+  | ["c12_cf", ex, loader, fm, ty] => some (match unhex fm, unhex ty with
+      | some fm, some ty =>
+        let l : Option Bool := if loader = "none" then none else some (loader = "callable")
+        (match AsciiCatalogs.cfDispatch (ex = "1") l fm ty with
+          | .fileNotFound => "FileNotFoundError" | .attributeError => "AttributeError" | .keyError => "KeyError"
+          | .forecast own nm => "forecast:" ++ (if own then "own" else "default") ++ ":" ++ (if nm then "name" else "noname"))
+      | _, _ => "bad-op")
   | ["dt_float", a] => some (perItem (fun s => showOR (pyFloat s)) a)
   | ["dt_np", a] => some (perItem (fun s => showOR (npFloat s)) a)
   | ["dt_int", a] => some (perItem (fun s => match pyInt s with | some i => toString i | none => "none") a)
